@@ -13,7 +13,7 @@
    in the model yet: PrintModel.convert_to_range is the identity, see notes). *)
 From Coq Require Import List ZArith.
 From RtoscV Require Import Pretty.Tok Pretty.FloatFmt Pretty.PrintModel Pretty.ScanModel
-  Pretty.PrettyProofs Pretty.RangeProofs Pretty.PrettyRegress.
+  Pretty.PrettyProofs Pretty.RangeProofs Pretty.RunProofs Pretty.PrettyRegress.
 Import ListNotations.
 Local Open Scope Z_scope.
 
@@ -53,6 +53,27 @@ Theorem C10_range_expand : forall o args size c kk,
   convert_to_range o args size = CYes c kk ->
   exists n, kk = Z.of_nat n /\ (5 <= n)%nat /\ expand c = Some (firstn n args).
 Proof. exact range_expand. Qed.
+
+(* whole messages (rtosc_print_message / rtosc_count_printed_arg_vals_of_msg /
+   rtosc_scan_message): the same for an address that starts with '/' and has
+   no white space, including the line break that replaces the blank after the
+   address and the message without arguments *)
+Theorem C10_message_partial : forall (dec2f dec2d : list Z -> Z) o addr vs text w,
+  compress o = false -> good_addr addr -> Forall good_val vs ->
+  print_message o addr vs 0 = Some (text, w) ->
+  w = len text /\
+  count_printed_arg_vals_of_msg dec2f dec2d text = Ok (true, Z.of_nat (length vs)) /\
+  scan_message dec2f dec2d text (Z.of_nat (length vs)) = Ok (addr, vs, []).
+Proof. exact message_roundtrip. Qed.
+
+(* repetitions: both recognisers read "NxV" (V a token of a good value) back as
+   the range header and the value, in any sequence of values and repetitions
+   separated by white space *)
+Theorem C10_repetition_reads_partial : forall (dec2f dec2d : list Z -> Z) els T,
+  elang dec2f dec2d els T ->
+  count_printed_arg_vals dec2f dec2d T = Ok (true, total_slots els) /\
+  scan_arg_vals dec2f dec2d T (total_slots els) = Ok (concat els, []).
+Proof. exact elements_agree. Qed.
 
 (* decimal integers: no open hypothesis about printf/sscanf *)
 Theorem C10_decimal_roundtrip : forall v rest,
